@@ -40,7 +40,7 @@ def batch_extra(ctx):
     report_mismatches(ctx, mism)
 
 
-def verify_family(ctx, mc_cfgs):
+def verify_family(ctx, mc_cfgs, configs=("default",)):
     for cfg in mc_cfgs:
         model_check(ctx, "MCVerify.tla", cfg)
     # negative control of the model: the pinned tree's fast-reject mask (244) must be refuted by TLC
@@ -48,11 +48,13 @@ def verify_family(ctx, mc_cfgs):
     if ok:
         raise Infra("model control failed: MCVerify accepts fast-reject mask 244")
     cases = gen_cases(ctx, "VerifyCases", "verify_cases.ndjson")
-    drv = build_driver(ctx)
-    trace = os.path.join(ctx.work, "verify.ndjson")
-    out = run_driver(ctx, drv, "verify", trace, cases=cases)
-    ctx.log("driver:", out.strip())
-    mism = validate_trace(ctx, "TraceVerify.tla", "TraceVerify.cfg", trace, classify=verify_class)
+    mism = []
+    for cfgname in configs:
+        drv = build_driver(ctx, cfgname)
+        trace = os.path.join(ctx.work, "verify_%s.ndjson" % cfgname)
+        out = run_driver(ctx, drv, "verify", trace, cases=cases, config=cfgname)
+        ctx.log("driver[%s]:" % cfgname, out.strip())
+        mism += validate_trace(ctx, "TraceVerify.tla", "TraceVerify.cfg", trace, classify=verify_class)
     report_mismatches(ctx, mism)
 
 
@@ -69,7 +71,8 @@ def c01(ctx):
 
 @check("C04")
 def c04(ctx):
-    verify_family(ctx, ["MCVerify_quick.cfg"] if not ctx.thorough else ["MCVerify_quick.cfg", "MCVerify_scalars.cfg"])
+    verify_family(ctx, ["MCVerify_quick.cfg"] if not ctx.thorough else ["MCVerify_quick.cfg", "MCVerify_scalars.cfg"],
+                  configs=list(vlib.CONFIGS) if ctx.thorough else ("default", "force32bit"))   # the scalar recodings differ per limb layout
     batch_extra(ctx)      # S >= L entries at every position of every chunking (marked, no forced fallback)
     finish(ctx, VERIFY_RULE + "; plus direct calls of the unexported scMinimal on a boundary-dense set", ASSUME_COMMON)
 
@@ -77,7 +80,8 @@ def c04(ctx):
 @check("C05")
 def c05(ctx):
     tlaps(ctx, "VerifyPredProofs.tla")      # unbounded: Accept(default) => Accept(zip); the modes differ only on small-order A or R
-    verify_family(ctx, ["MCVerify_quick.cfg"] if not ctx.thorough else ["MCVerify_quick.cfg", "MCVerify_thorough.cfg"])
+    verify_family(ctx, ["MCVerify_quick.cfg"] if not ctx.thorough else ["MCVerify_quick.cfg", "MCVerify_thorough.cfg"],
+                  configs=list(vlib.CONFIGS) if ctx.thorough else ("default", "force32bit"))
     batch_extra(ctx)      # ZIP-215 batches with small-order entries, alone and next to other failures (fallback path)
     finish(ctx, VERIFY_RULE, ASSUME_COMMON)
 
@@ -490,6 +494,10 @@ def c20(ctx):
         probe, flt, b, e, rf = _build_ct(ctx, cfg)
         for op, cls, shape in CT_OPS:
             ss = secrets if not op.startswith("Equal") else secrets[1:3]
+            if op in ("X25519Base", "ScalarBaseMult"):
+                # the scalar IS the secret here: digit patterns of the signed radix-16 recoding (zero digits, 7/8
+                # boundaries with and without carries, maximal digits) reach the same fixed-base code as key generation and signing
+                ss = ss + ["88" * 32, "77" * 32, "08" * 32, "f0" * 31 + "70", "0f" * 32]
             for s in ss:
                 jobs.append((probe, flt, b, e, rf, op, s))
                 meta.append((cfg, op, cls, shape, s))
